@@ -107,7 +107,7 @@ namespace fastscapelib
                 {
                     receivers(i, 0) = i;
                     dist2receivers(i, 0) = 0;
-                    slope_max = std::numeric_limits<double>::min();
+                    slope_max = 0.;
 
                     if (graph_impl.is_masked(i) || graph_impl.is_base_level(i))
                     {
@@ -120,7 +120,10 @@ namespace fastscapelib
                         {
                             slope = (elevation.flat(i) - elevation.flat(n.idx)) / n.distance;
 
-                            if (slope > slope_max)
+                            // any strictly lower neighbor is a candidate receiver, even
+                            // if the slope is tiny (or underflows to zero)
+                            if (elevation.flat(n.idx) < elevation.flat(i)
+                                && (slope > slope_max || receivers(i, 0) == i))
                             {
                                 slope_max = slope;
                                 receivers(i, 0) = n.idx;
@@ -161,7 +164,7 @@ namespace fastscapelib
                     {
                         receivers(i, 0) = i;
                         dist2receivers(i, 0) = 0;
-                        slope_max = std::numeric_limits<double>::min();
+                        slope_max = 0.;
 
                         if (graph_impl.is_masked(i) || graph_impl.is_base_level(i))
                         {
@@ -174,7 +177,10 @@ namespace fastscapelib
                             {
                                 slope = (elevation.flat(i) - elevation.flat(n.idx)) / n.distance;
 
-                                if (slope > slope_max)
+                                // any strictly lower neighbor is a candidate receiver, even
+                                // if the slope is tiny (or underflows to zero)
+                                if (elevation.flat(n.idx) < elevation.flat(i)
+                                    && (slope > slope_max || receivers(i, 0) == i))
                                 {
                                     slope_max = slope;
                                     receivers(i, 0) = n.idx;
